@@ -23,8 +23,9 @@ Id(e, r, role, g, neg) == Tk("IDENT", e, r, role, g, neg)
 
 \* inner layout style: blanks between the parts of one relation
 \*   1 canonical single spaces   2 no optional blanks   3 generous blanks
+\*   4 as 1, with a blank in front of the ':' of the architecture qualifier (both readers skip blanks there)
 Opt(s)  == IF s = 2 THEN <<>> ELSE IF s = 3 THEN <<W>> ELSE <<W>>      \* before ( [ <
-In(s)   == IF s = 3 THEN <<W>> ELSE <<>>                               \* after ( [ <  and before ] >
+In(s)   == IF s = 3 THEN <<W>> ELSE <<>>                               \* after ( [ <  and before ) ] >
 OpV(s)  == IF s = 2 THEN <<>> ELSE <<W>>                               \* between operator and version
 
 OpToks(op, e, r) ==
@@ -52,12 +53,12 @@ Groups(gs, e, r, s, g) ==
 \* v = [aq, op (0 none), epoch, archs (<<>> none | <<neg..>>), hasArch, profs (seq of seq of neg)]
 RelToks(v, e, r, s) ==
   <<Id(e, r, "name", 0, FALSE)>>
-  \o (IF v.aq THEN <<P("COLON"), Id(e, r, "aq", 0, FALSE)>> ELSE <<>>)
+  \o (IF v.aq THEN (IF s = 4 THEN <<W>> ELSE <<>>) \o <<P("COLON"), Id(e, r, "aq", 0, FALSE)>> ELSE <<>>)
   \o (IF v.op = 0 THEN <<>>
       ELSE Opt(s) \o <<P("L_PARENS")>> \o In(s) \o OpToks(v.op, e, r) \o OpV(s)
            \o (IF v.epoch THEN <<Id(e, r, "ver", 0, FALSE), Tk("COLON", e, r, "ver", 0, FALSE), Id(e, r, "ver", 0, FALSE)>>
                ELSE <<Id(e, r, "ver", 0, FALSE)>>)
-           \o <<P("R_PARENS")>>)
+           \o In(s) \o <<P("R_PARENS")>>)
   \o (IF ~v.hasArch THEN <<>>
       ELSE Opt(s) \o <<Tk("L_BRACKET", e, r, "lb", 0, FALSE)>> \o In(s) \o Terms(v.archs, e, r, "arch", 0, 1) \o In(s) \o <<P("R_BRACKET")>>)
   \o Groups(v.profs, e, r, s, 1)
@@ -133,7 +134,7 @@ DefP == << <<W>>, <<W>> >>
 
 MCInit ==
   \* every single relation of the option lattice, in each inner layout
-  \/ \E v \in GoodV, s \in 1..3 : InitWith(MkCase(Field(<<E1(v)>>, s, DefC, DefP, <<>>, FALSE, <<>>), <<E1(v)>>, FALSE))
+  \/ \E v \in GoodV : \E s \in (IF v.aq THEN 1..4 ELSE 1..3) : InitWith(MkCase(Field(<<E1(v)>>, s, DefC, DefP, <<>>, FALSE, <<>>), <<E1(v)>>, FALSE))
   \* alternatives and several entries, each separator layout
   \/ \E v \in FewV, w \in FewV, cs \in CommaStyles, ps \in PipeStyles, tc \in BOOLEAN :
        LET items == <<E2(v, w), E1(w)>> IN
